@@ -201,32 +201,40 @@ def writer_reader(ix, R):
     site = UH + '::load_generic_profile_from_hdf5'
     with R.guard('1.loader', 'TAB', site, 'loader'):
         f = ix.func(site)
-        src = unparse(f.node)
-        need = ['klass = class_for_name(profile_type)', 'klass_kwargs = get_klass_args(klass)',
-                'for kw in klass_kwargs:\n        if kw in temp_keys:', 'v = loc[kw][()]', 'args_dict[kw] = v',
-                'return klass(**args_dict)', 'profile_type = loc[identifier][()]']
-        miss = [x for x in need if x not in src]
-        R.check('1.loader', 'TAB', site,
-                'the loader offers the constructor exactly the stored keys that are constructor keywords, by name',
-                not miss, key='; '.join(miss), detail='missing %s' % miss, loc=f.loc())
+        from sa.helpers import need
+        ps = f.params()
+        need(R, '1.loader', 'TAB', site,
+             'the loader offers the constructor exactly the stored keys that are constructor keywords, by name', f,
+             ['V_pt = V_loc[V_id][()]', 'V_k = class_for_name(V_pt)', 'V_kws = get_klass_args(V_k)', 'V_keys = list(V_loc.keys())', '''
+for V_kw in V_kws:
+    if V_kw in V_keys:
+        V_v = V_loc[V_kw][()]
+        ...
+''', 'V_args[V_kw] = V_v', 'return V_k(**V_args)'],
+             binding={'V_loc': ps[0], 'V_id': ps[2], 'V_pt': ps[3]})
     site = UH + '::get_klass_args'
     with R.guard('1.loader.args', 'TAB', site, 'keyword list'):
         f = ix.func(site)
-        src = unparse(f.node)
-        R.check('1.loader.args', 'TAB', site, 'constructor keywords = the parameters that have defaults',
-                'keyword_args = args[-len(defaults):]' in src and 'return keyword_args' in src, key='args',
-                detail='differs', loc=f.loc())
+        from sa.helpers import need
+        need(R, '1.loader.args', 'TAB', site, 'constructor keywords = the parameters that have defaults', f,
+             ['V_a, V_va, V_kw, V_d = inspect.getfullargspec(V_k.__init__)[:4]', 'V_out = V_a[-len(V_d):]', 'return V_out'],
+             binding={'V_k': f.params()[0]})
     site = UH + '::load_model_from_hdf5'
     with R.guard('1.loader.model', 'TAB', site, 'model'):
         f = ix.func(site)
-        src = unparse(f.node)
-        need = ["kwargs['planet'] = planet", "kwargs['star'] = star", "kwargs['chemistry'] = chemistry",
-                "kwargs['temperature_profile'] = temperature", "kwargs['pressure_profile'] = pressure",
-                "model.add_contribution(load_contrib_from_hdf5(contribution_loc, contrib, replacement_dict=replacement_dict))"]
-        miss = [x for x in need if x not in src]
-        R.check('1.loader.model', 'TAB', site,
-                'the reloaded model receives the five reloaded components under their constructor names and every stored contribution',
-                not miss, key='; '.join(miss), detail='missing %s' % miss, loc=f.loc())
+        from sa.helpers import need
+        ps = f.params()
+        need(R, '1.loader.model', 'TAB', site,
+             'the reloaded model receives the five reloaded components under their constructor names and every stored contribution', f,
+             ['V_c = load_chemistry_from_hdf5(V_loc, replacement_dict=V_r)', 'V_p = load_pressure_from_hdf5(V_loc, replacement_dict=V_r)',
+              'V_t = load_temperature_from_hdf5(V_loc, replacement_dict=V_r)', 'V_pl = load_planet_from_hdf5(V_loc, replacement_dict=V_r)',
+              'V_s = load_star_from_hdf5(V_loc, replacement_dict=V_r)',
+              "V_kw['planet'] = V_pl", "V_kw['star'] = V_s", "V_kw['chemistry'] = V_c", "V_kw['temperature_profile'] = V_t",
+              "V_kw['pressure_profile'] = V_p",
+              "V_m = load_generic_profile_from_hdf5(V_loc, 'taurex.model', 'model_type', premade_dict=V_kw, replacement_dict=V_r)",
+              "V_cl = V_loc['Contributions']",
+              'V_m.add_contribution(load_contrib_from_hdf5(V_cl, V_ci, replacement_dict=V_r))', 'return V_m'],
+             binding={'V_loc': ps[0], 'V_r': ps[1]})
 
 
 def spectrum_dicts(ix, R):
@@ -345,15 +353,18 @@ def dispatch(ix, R):
 
         def has(name, typ, args=None):
             return any(typ in t and (args is None or a == args) for t, a in table.get(name, []))
-        if not has('write_scalar', 'float, int', ['key', 'item']):
+        ki = [fmt(fl, pe['key']), fmt(fl, pe['item'])]
+        if not has('write_scalar', 'float, int', ki):
             why.append('scalars')
-        if not has('write_array', 'np.ndarray', ['key', 'item']):
+        if not has('write_array', 'np.ndarray', ki):
             why.append('arrays')
-        if not has('write_string', '(str,)', ['key', 'item']):
+        if not has('write_string', '(str,)', ki):
             why.append('strings')
         if not has('write_string_array', 'list, tuple'):
             why.append('string lists')
-        if not has('create_group', '') or 'recursively_save_dict_contents_to_output(group, item)' not in unparse(f.node):
+        from sa.pattern import find as _find
+        if not has('create_group', '') or _find(f.node, ['V_g = %s.create_group(%s)' % (f.params()[0], f.params()[1]),
+                                                        'recursively_save_dict_contents_to_output(V_g, %s)' % f.params()[2]])[0] is None:
             why.append('nested dictionaries')
         if not fl.of('raise') or not any(unparse(r.exc_ast).startswith('TypeError') for r in fl.of('raise')):
             why.append('unknown type does not raise')
@@ -365,10 +376,16 @@ def dispatch(ix, R):
     site = UU + '::recursively_save_dict_contents_to_output'
     with R.guard('4.recurse', 'TAB', site, 'recursion'):
         f = ix.func(site)
-        src = unparse(f.node)
-        R.check('4.recurse', 'TAB', site, 'every (key, item) of the dictionary is stored under its own key; an unsupported type is an error',
-                'for key, item in dic.items():' in src and 'store_thing(output, key, item)' in src and 'raise ValueError' in src,
-                key='recurse', detail='differs', loc=f.loc())
+        from sa.helpers import need
+        ps = f.params()
+        need(R, '4.recurse', 'TAB', site, 'every (key, item) of the dictionary is stored under its own key; an unsupported type is an error', f,
+             ['''
+for V_k, V_i in V_d.items():
+    try:
+        store_thing(V_o, V_k, V_i)
+    except TypeError:
+        raise ValueError(V_msg)
+'''], binding={'V_o': ps[0], 'V_d': ps[1]})
     # HDF5 group implements every abstract write method
     base = ix.cls(OO + '::OutputGroup')
     impl = ix.cls(OH + '::HDF5OutputGroup')
@@ -382,8 +399,13 @@ def dispatch(ix, R):
         with R.guard('4.h5', 'ARG', site, 'dataset'):
             f = ix.func(site)
             ps = f.params()
-            src = unparse(f.node)
-            ok = 'self._entry.create_dataset(str(%s), data=%s' % (ps[1], ps[2]) in src
+            cds = [n for n in ast.walk(f.node) if isinstance(n, ast.Call) and isinstance(n.func, ast.Attribute)
+                   and n.func.attr == 'create_dataset' and unparse(n.func.value) == 'self._entry']
+            ok = False
+            for c in cds:
+                data = [k.value for k in c.keywords if k.arg == 'data']
+                if c.args and unparse(c.args[0]) in ('str(%s)' % ps[1], ps[1]) and data and unparse(data[0]) == ps[2]:
+                    ok = True
             R.check('4.h5', 'ARG', site, '%s stores the given value under the given name' % nm, ok,
                     key=nm, detail='create_dataset call differs', loc=f.loc())
 
@@ -418,5 +440,8 @@ MUTANTS = [
     ('group-missing', OH, "    @only_master_rank\n    def write_string(self, string_name, string, metadata=None):", "    @only_master_rank\n    def write_str(self, string_name, string, metadata=None):", '4.group'),
 ]
 EQUIVALENTS = [
+    ('loader-rename', UH, r're:\bklass_kwargs\b', 'ctor_keys'),
+    ('loader-rename2', UH, r're:\bargs_dict\b', 'given'),
+    ('store-rename', UU, r're:\bitem\b', 'thing'),
     ('wlgrid-form', BB, "output['native_wlgrid'] = 10000 / wngrid", "output['native_wlgrid'] = 1.0 / (wngrid / 10000.0)"),
 ]
